@@ -472,7 +472,8 @@ def table_case(draw, tier="quick"):
     k = draw(st.integers(1, 4))
     kinds = [draw(st.sampled_from(["int", "float", "str", "bool"])) for _ in range(k)]
     cols = [(f"c{i}", draw(V.column(kind=kinds[i], min_size=n, max_size=n, elements=_small(kinds[i])))[1]) for i in range(k)]
-    form = draw(st.sampled_from(["cell", "row", "row2", "column", "region_scalar", "region_cols", "region_table", "mask_scalar"]))
+    form = draw(st.sampled_from(["cell", "row", "row2", "column", "region_scalar", "region_cols", "region_table", "mask_scalar",
+                                 "rows_list", "rows_list", "rows_mask"]))
     r = draw(st.integers(-n - 1, n))
     c = draw(st.integers(0, k - 1))
     r0, r1 = sorted([draw(st.integers(0, n)), draw(st.integers(0, n))])
@@ -495,6 +496,13 @@ def table_case(draw, tier="quick"):
         if bad == "type" and colv:
             colv[draw(st.integers(0, ln - 1))] = b"x"
         vals = {"col": colv}
+    elif form in ("rows_list", "rows_mask"):
+        # rows given as an index list / tuple / vector or as a boolean mask, columns by position, slice or name(s); a scalar value
+        rows = draw(st.lists(st.integers(-n, n - 1), min_size=1, max_size=3))
+        colsel = draw(st.sampled_from(["int", "all", "slice", "name", "names"]))
+        vals = {"x": draw(vk(c)) if colsel in ("int", "name") else draw(st.integers(-3, 3)) if all(kd in ("int", "float") for kd in kinds) else None,
+                "rows": rows, "rows_form": draw(st.sampled_from(["list", "tuple", "vector"])), "colsel": colsel,
+                "mask": draw(st.lists(st.booleans(), min_size=n, max_size=n))}
     elif form in ("region_scalar", "mask_scalar"):
         vals = {"x": draw(vk(c0 if c0 < k else 0)), "mask": draw(st.lists(st.booleans(), min_size=n, max_size=n))}
     else:
@@ -578,6 +586,22 @@ def run_table(case, ctx):
         key = (rs, cs)
         value = vals["x"]
         addressed = {(i, j) for i in range(*rs.indices(n)) for j in range(*cs.indices(k))}
+        want = {p: value for p in addressed}
+    elif form in ("rows_list", "rows_mask"):
+        if form == "rows_list":
+            rows_ = [i % n for i in vals["rows"]]
+            rk_ = {"list": list, "tuple": tuple, "vector": lambda x: S.Vector(list(x))}[vals["rows_form"]](vals["rows"])
+        else:
+            rows_ = [i for i in range(n) if vals["mask"][i]]
+            rk_ = list(vals["mask"]) if vals["rows_form"] != "vector" else S.Vector(list(vals["mask"]))
+        cs_ = vals["colsel"]
+        cols_ = {"int": [c], "name": [c], "all": list(range(k)), "slice": list(range(*cs.indices(k))), "names": list(range(*cs.indices(k)))}[cs_]
+        ck_ = {"int": c, "name": colname(c), "all": slice(None), "slice": cs, "names": [colname(j) for j in cols_]}[cs_]
+        if cs_ == "names" and not cols_:
+            return
+        key = (rk_, ck_)
+        value = vals["x"]
+        addressed = {(i, j) for i in rows_ for j in cols_}
         want = {p: value for p in addressed}
     elif form == "mask_scalar":
         m = vals["mask"]
